@@ -35,6 +35,11 @@ impl Arena {
             *p.add(9) = 0xC3;
         }
     }
+    /// a FIVE-byte function: `push imm8 ; pop rax ; ret ; nop` — as long as the entry patch, so that it can end exactly on a page boundary
+    pub fn put_fn5(&self, addr: u64, v: u8) {
+        assert!(addr >= self.base && addr + 5 <= self.base + self.len as u64);
+        unsafe { std::ptr::copy_nonoverlapping([0x6Au8, v & 0x7f, 0x58, 0xC3, 0x90].as_ptr(), addr as *mut u8, 5); }
+    }
     pub fn seal(&self) { unsafe { raw_mprotect(self.base as *mut libc::c_void, self.len, libc::PROT_READ | libc::PROT_EXEC); } }
     pub fn unseal(&self) { unsafe { raw_mprotect(self.base as *mut libc::c_void, self.len, libc::PROT_READ | libc::PROT_WRITE); } }
 }
